@@ -1,5 +1,5 @@
 (* Codec/Props_codec.v — property theorems of the codec area (statement + `exact lemma` only). *)
-From FlacCodec Require Import Parser_proofs Wf Spec Roundtrip_sub Roundtrip_hdr Roundtrip_frame Agree_frame Totality Progress Stream EncChoice Damage Prefix Interrupted Inverse Inverse_frame StreamRd StreamRd_proofs.
+From FlacCodec Require Import Parser_proofs Wf Spec Roundtrip_sub Roundtrip_hdr Roundtrip_frame Agree_frame Totality Progress Stream EncChoice Damage Prefix Interrupted Inverse Inverse_frame StreamRd StreamRd_proofs Lengths.
 From FlacBase Require Import Crc.
 Open Scope N_scope.
 
@@ -75,6 +75,11 @@ Theorem C16_self_describing : forall f bytes rest,
   wf_frame None f = true -> spec_frame f = true -> write_frame f = Some bytes ->
   dec_frame None no_check (bytes ++ rest) = Ok (f_hdr f, sem_frame f, rest).
 Proof. intros. apply dec_frame_agree; auto. Qed.
+
+(* C17: every well-formed subframe expands to exactly block-size samples *)
+Theorem C17_subframe_expands_to_block_size : forall bs bps sf,
+  wf_subframe bs bps sf = true -> length (sem_subframe bs sf) = N.to_nat bs.
+Proof. exact sem_subframe_length. Qed.
 
 (* C04: no byte string makes the frame decoder panic ... *)
 Theorem C04_frame_total : forall si chk bytes,
